@@ -5,6 +5,7 @@ import (
 	"fmt"
 	"strconv"
 	"strings"
+	"sync/atomic"
 	"testing"
 	"time"
 
@@ -17,7 +18,7 @@ const pid = "C13"
 
 // Step is a client line or an external store mutation between two commands.
 type Step struct {
-	K    string `json:"k"`              // cmd | xadd | xremove | xother
+	K    string `json:"k"`              // cmd | xadd | xremove | xpurge | xother
 	Line string `json:"line,omitempty"` // cmd: the line sent
 	N    int    `json:"n,omitempty"`    // xremove: index into the current store content; xadd: body size class
 }
@@ -33,7 +34,10 @@ type smsg struct {
 	id   string
 	size int64
 	body []byte
+	uid  int64 // identity of the delivery (ids could, wrongly, repeat)
 }
+
+var uidSeq atomic.Int64
 
 func bodyOf(n int) []byte {
 	var b bytes.Buffer
@@ -55,6 +59,9 @@ var stepGen = rapid.Custom(func(t *rapid.T) Step {
 	case 1:
 		return Step{K: "xremove", N: rapid.IntRange(0, 7).Draw(t, "n")}
 	case 2:
+		if rapid.Bool().Draw(t, "purge") {
+			return Step{K: "xpurge"}
+		}
 		return Step{K: "xother"}
 	case 3, 4:
 		return Step{K: "cmd", Line: rapid.SampledFrom([]string{"USER box", "PASS x", "APOP box 0123", "USER", "APOP box", "PASS", "user box", "pass y"}).Draw(t, "auth")}
@@ -97,6 +104,18 @@ var prop = hx.Prop[Case]{
 		if rapid.IntRange(0, 4).Draw(t, "login") > 0 {
 			c.Steps = append(c.Steps, Step{K: "cmd", Line: "USER box"}, Step{K: "cmd", Line: "PASS x"})
 		}
+		if rapid.IntRange(0, 7).Draw(t, "replaced") == 0 && len(c.Sizes) > 0 {
+			// the mailbox is emptied and refilled through another interface while the session is
+			// open; the session then deletes by its old numbers: only snapshot messages may go
+			c.Steps = []Step{{K: "cmd", Line: "USER box"}, {K: "cmd", Line: "PASS x"}, {K: "xpurge"}}
+			for i := rapid.IntRange(1, 4).Draw(t, "refill"); i > 0; i-- {
+				c.Steps = append(c.Steps, Step{K: "xadd", N: rapid.IntRange(0, 5).Draw(t, "rn")})
+			}
+			for i := rapid.IntRange(1, 3).Draw(t, "deles"); i > 0; i-- {
+				c.Steps = append(c.Steps, Step{K: "cmd", Line: fmt.Sprintf("DELE %d", rapid.IntRange(1, len(c.Sizes)).Draw(t, "dn"))})
+			}
+			c.End = "quit"
+		}
 		c.Steps = append(c.Steps, rapid.SliceOfN(stepGen, 1, 38).Draw(t, "steps")...)
 		return c
 	},
@@ -105,7 +124,7 @@ var prop = hx.Prop[Case]{
 
 func deliver(st storage.Store, box string, body []byte) (smsg, error) {
 	id, err := st.AddMessage(hx.NewDelivery(box, nil, nil, hx.BaseTime, "m", body))
-	return smsg{id: id, size: int64(len(body)), body: body}, err
+	return smsg{id: id, size: int64(len(body)), body: body, uid: uidSeq.Add(1)}, err
 }
 
 func run(c Case) *hx.Outcome {
@@ -182,6 +201,17 @@ func run(c Case) *hx.Outcome {
 				content = append(append([]smsg{}, content[:j]...), content[j+1:]...)
 				sawExt = sawExt || trans
 			}
+			continue
+		case "xpurge":
+			// the mailbox emptied through another interface; later deliveries get new identities
+			if err := w.Store.PurgeMessages("box"); err != nil {
+				o.Failf(pid+":harness", "external purge: %v", err)
+				return o
+			}
+			if len(content) > 0 {
+				sawExt = sawExt || trans
+			}
+			content = nil
 			continue
 		case "xother":
 			_, _ = deliver(w.Store, "elsewhere", bodyOf(1))
@@ -384,7 +414,7 @@ func run(c Case) *hx.Outcome {
 		del := false
 		if committed && user == "box" {
 			for j, s := range snap {
-				if s.id == m.id && marked[j] {
+				if s.uid == m.uid && marked[j] {
 					del = true
 				}
 			}
